@@ -196,6 +196,12 @@ def check(run):
     loadfam.replay_load(run, graphs + fams, "Trace_Fk", "Trace_Fk.cfg", build_features=("json", "quote"),
                         variant="json-quote", key_of=_key, trace_env={"ORACLE": oracle})
     loadfam.replay_suppressed(run, graphs + fams, "Trace_Fk", "Trace_Fk.cfg", _key, trace_env={"ORACLE": oracle})
+    # references by PATH into nested groups (one, two, three segments; the same names at several levels), plain and inside a namespace
+    pcases, _ = loadfam.gen_cases(run, "MC_FkPaths", "MC_FkPaths.cfg", workers=1)
+    kp = lambda c, r: "fk-paths;%s" % sorted(r["tags"])[0]
+    loadfam.replay_load(run, pcases, "Trace_FkPaths", "Trace_FkPaths.cfg", build_features=("json", "quote"), variant="json-quote", key_of=kp, tag="_paths")
+    loadfam.replay_load(run, loadfam.namespaced(pcases), "Trace_FkPaths", "Trace_FkPaths.cfg", build_features=("json", "quote"), variant="json-quote",
+                        key_of=lambda c, r: "namespaced;" + kp(c, r), tag="_paths_ns")
     quick = run.tier == "quick"
     import os
     run.notes["l2_render_events"] = run_l2(run, graphs + fams, os.path.join(run.workdir, "load", "trace.ndjson"),
